@@ -46,6 +46,24 @@ def from_exception_table(ctx):
     ctx.require(False, 'anchor vanished: exception_2_notify table in PayloadNOTIFY.from_exception')
 
 
+def timer_coverage(ctx, ts, rule):
+    """every state in which a request of ours is outstanding is covered by the retransmission timer: it retransmits and stays, and
+    its give-up edge reaches DELETED (only DELETED entries ever leave the controller's table); idle states are left alone"""
+    S = ts.S
+    RS = req_sent_states(S)
+    rt = ctx.func('ikesa.IkeSa.check_retransmission_timer')
+    for s in S.names:
+        out = ts.summary(rt, s)
+        if s in RS:
+            ctx.check(('DELETED', 'ret') in out, rule, 'retransmission timer covers %s: give-up edge reaches DELETED' % s,
+                      key=(rule, 'timer-misses', s), site=ctx.site(rt, rt.node), detail={'outcomes': sorted(out)})
+            ctx.check((s, 'retv') in out, rule, 'retransmission timer covers %s: retransmits and stays in %s' % (s, s),
+                      key=(rule, 'timer-no-retransmit', s), site=ctx.site(rt, rt.node), detail={'outcomes': sorted(out)})
+        else:
+            ctx.check(out == {(s, 'ret')}, rule, 'retransmission timer leaves %s alone (no request outstanding)' % s,
+                      key=(rule, 'timer-touches-idle', s), site=ctx.site(rt, rt.node), detail={'outcomes': sorted(out)})
+
+
 def run(ctx):
     prog, res = ctx.prog, ctx.res
     esc = ctx.escape('engine', kills=common.engine_kills(ctx))
@@ -89,17 +107,7 @@ def run(ctx):
     for s in RS:
         ctx.check(s in produced, 'S2', 'request-outstanding state %s is entered by a request generator' % s,
                   key=('S2', 'state-never-entered', s))
-    rt = ctx.func('ikesa.IkeSa.check_retransmission_timer')
-    for s in S.names:
-        out = ts.summary(rt, s)
-        if s in RS:
-            ctx.check(('DELETED', 'ret') in out, 'S2', 'retransmission timer covers %s: give-up edge reaches DELETED' % s,
-                      key=('S2', 'timer-misses', s), site=ctx.site(rt, rt.node), detail={'outcomes': sorted(out)})
-            ctx.check((s, 'retv') in out, 'S2', 'retransmission timer covers %s: retransmits and stays in %s' % (s, s),
-                      key=('S2', 'timer-no-retransmit', s), site=ctx.site(rt, rt.node), detail={'outcomes': sorted(out)})
-        else:
-            ctx.check(out == {(s, 'ret')}, 'S2', 'retransmission timer leaves %s alone (no request outstanding)' % s,
-                      key=('S2', 'timer-touches-idle', s), site=ctx.site(rt, rt.node), detail={'outcomes': sorted(out)})
+    timer_coverage(ctx, ts, 'S2')
     for ex, h in sorted(resp.items()):
         for s in RS:
             out = ts.summary(h, s)
@@ -253,6 +261,10 @@ def run(ctx):
     handover_rule(ctx, esc, 'S3')
 
     # ---------------------------------------------------------------- S4
+    # the entry points are only ever invoked on IKE_SAs that are in the controller's table: once an IKE_SA was deleted and removed
+    # (e.g. by crossing DELETEs) a late or duplicated message for its SPI finds nothing and is dropped
+    from .c16 import lookup_by_spi
+    lookup_by_spi(ctx, 'S4')
     allowed_pm = {'InvalidSyntax', 'UnsupportedCriticalPayload'}
     for name in common.ENTRY_POINTS:
         fi = ctx.func('ikesa.IkeSa.' + name)
